@@ -130,23 +130,35 @@ fn check_value(kind: &str, value: u32, st: &mut Stats) -> R {
     if !ok {
         return Err(f("reflection-vs-parser", format!("after {:?} the parser delivers {:?}, reflection reports {:?}", op, delivered, want)));
     }
-    // one word fewer / one word more is rejected
-    if !pw.is_empty() {
-        let mut b2 = header_words((1, 6), 100);
-        b2.extend(carrier(kind, value, &pw[..pw.len() - 1]));
-        let (_, r2) = parse_words_collect(&b2)?;
-        if r2.is_ok() {
-            return Err(f("parser-needs-all-parameters", format!("{:?} accepted with one parameter word missing", op)));
+    // any number of parameter words short of the full list / one word more is rejected, and the full
+    // list is consumed identically, under every version the header may declare (the statement ties the
+    // consumed kinds to the value alone)
+    const VERSIONS: [(u8, u8); 11] = [(1, 6), (1, 0), (1, 1), (1, 2), (1, 3), (1, 4), (1, 5), (1, 7), (2, 0), (0, 0), (255, 255)];
+    for ver in VERSIONS {
+        for cut in 0..pw.len() {
+            let mut b2 = header_words(ver, 100);
+            b2.extend(carrier(kind, value, &pw[..cut]));
+            let (_, r2) = parse_words_collect(&b2)?;
+            if r2.is_ok() {
+                return Err(f("parser-needs-all-parameters", format!("{:?} accepted with {} of its {} parameter words (header version {}.{})", op, cut, pw.len(), ver.0, ver.1)));
+            }
         }
-    }
-    if kind != "ExecutionMode" || true {
         let mut more = pw.clone();
         more.push(5);
-        let mut b3 = header_words((1, 6), 100);
+        let mut b3 = header_words(ver, 100);
         b3.extend(carrier(kind, value, &more));
         let (_, r3) = parse_words_collect(&b3)?;
         if r3.is_ok() {
-            return Err(f("parser-rejects-surplus", format!("{:?} accepted with a surplus word", op)));
+            return Err(f("parser-rejects-surplus", format!("{:?} accepted with a surplus word (header version {}.{})", op, ver.0, ver.1)));
+        }
+        if ver != (1, 6) {
+            let mut b4 = header_words(ver, 100);
+            b4.extend(carrier(kind, value, &pw));
+            let (c4, r4) = parse_words_collect(&b4)?;
+            let same = r4.is_ok() && c4.insts.first().map(|i| i.operands == inst.operands).unwrap_or(false);
+            if !same {
+                return Err(f("reflection-vs-parser", format!("{:?} with its full parameter list is consumed differently under header version {}.{}: {:?} / {:?}", op, ver.0, ver.1, r4.as_ref().err().map(|e| format!("{}", e)), c4.insts.first().map(|i| i.operands.clone()))));
+            }
         }
     }
     // capabilities / extensions
